@@ -106,3 +106,55 @@ pub fn check(d: &VerifDump) -> Vec<(String, String)> {
     }
     out
 }
+
+/// The number of elements a table with `buckets` buckets may hold, *measured* on the implementation
+/// under test (largest n for which a fresh `with_capacity(n)` table has that many buckets), so that the
+/// oracle does not encode the load factor. Cached per process.
+pub fn capacity_of_buckets(buckets: usize) -> Option<usize> {
+    use std::collections::BTreeMap;
+    use std::sync::Mutex;
+    static CACHE: Mutex<BTreeMap<usize, Option<usize>>> = Mutex::new(BTreeMap::new());
+    if let Some(v) = CACHE.lock().unwrap_or_else(|e| e.into_inner()).get(&buckets) {
+        return *v;
+    }
+    let buckets_for = |n: usize| -> (usize, usize) {
+        let t: hashbrown::HashTable<[u64; 4]> = hashbrown::HashTable::with_capacity(n);
+        let d = hashbrown::verif::dump_table(&t);
+        (d.bucket_mask + 1, d.growth_left)
+    };
+    // with_capacity is monotone in n: binary search for the largest n that still gives `buckets`
+    let (mut lo, mut hi) = (1usize, buckets);
+    let mut best = None;
+    while lo <= hi {
+        let mid = lo + (hi - lo) / 2;
+        let (b, gl) = buckets_for(mid);
+        if b == buckets {
+            best = Some(gl);
+            lo = mid + 1;
+        } else if b < buckets {
+            lo = mid + 1;
+        } else {
+            if mid == 0 {
+                break;
+            }
+            hi = mid - 1;
+        }
+    }
+    CACHE.lock().unwrap_or_else(|e| e.into_inner()).insert(buckets, best);
+    best
+}
+
+/// I6 (absolute form): growth_left + items + tombstones equals the capacity a fresh table of the same
+/// bucket count has.
+pub fn check_budget(d: &VerifDump) -> Option<(String, String)> {
+    if d.is_empty_singleton {
+        return None;
+    }
+    let sh = shape(d);
+    let want = capacity_of_buckets(sh.buckets)?;
+    let have = d.growth_left + d.items + sh.deleted;
+    if have != want {
+        return Some(("inv/I6".into(), format!("capacity budget of a {}-bucket table is {} (growth_left of a fresh table of that size), but growth_left+items+tombstones = {}+{}+{} = {}", sh.buckets, want, d.growth_left, d.items, sh.deleted, have)));
+    }
+    None
+}
